@@ -48,6 +48,7 @@ def dispatch (op : String) : Option (List String → List String → Option (Str
   | "pool.race" => some poolSpec
   | "pool.usable" => some poolSpec
   | "pool.handles" => some poolSpec
+  | "pool.cancelledstart" => some poolSpec
   | "result.stress" => some resultStress
   | "raterun.stop" => some raterunOp
   | "raterun.switch" => some raterunOp
